@@ -14,8 +14,8 @@ import time
 
 VERIF = os.path.dirname(os.path.dirname(os.path.abspath(__file__)))
 REPO = "/repo"
-RELATED = {"C01": ["C01", "C02"], "C02": ["C02", "C01"], "C04": ["C04"], "C09": ["C09"], "C15": ["C15", "C02", "C04", "C13"],
-           "C16": ["C16"], "C08": ["C08"], "C20": ["C20", "C08"], "C12": ["C12"], "C10": ["C10"], "C14": ["C14", "C09", "C10"],
+RELATED = {"C01": ["C01", "C02"], "C02": ["C02", "C01"], "C04": ["C04"], "C09": ["C09"], "C15": ["C15", "C02", "C04", "C13", "C03"],
+           "C16": ["C16"], "C08": ["C08"], "C20": ["C20", "C08"], "C12": ["C12", "C20"], "C10": ["C10"], "C14": ["C14", "C09", "C10"],
            "C05": ["C05"], "C06": ["C06", "C04"], "C19": ["C19"], "C03": ["C03"], "C18": ["C18"], "C13": ["C13"]}
 
 
